@@ -87,6 +87,8 @@ def is_ppt(mat: np.ndarray, sys: int = 2, dim: int | list[int] = None, tol: floa
             [sqrt_rho_dims[0], sqrt_rho_dims[0]],
             [sqrt_rho_dims[1], sqrt_rho_dims[1]],
         ]
+    if isinstance(dim, (int, np.integer)):
+        dim = [int(dim), mat.shape[0] // int(dim)]
     if tol is None:
         tol = np.sqrt(eps)
     return is_positive_semidefinite(partial_transpose(mat, [sys - 1], dim), tol)
